@@ -209,15 +209,31 @@ pub fn judge<G: GraphLike + 'static>(st: &mut Stats, case: &Case, backend: &'sta
         }
         Ok(Ok(t)) => t,
     };
-    // three decodings: the decoder iterates std HashMaps whose order differs per instance
-    for round in 0..3 {
-        let h: G = match guarded(|| decode_graph::<G>(&txt)) {
+    // three decodings: the decoder iterates std HashMaps whose order differs per instance; a fourth round goes through
+    // the file API (write_graph, then read_graph, which decodes from a reader instead of a string)
+    for round in 0..4 {
+        let via_file = round == 3;
+        let decoded = guarded(|| {
+            if via_file {
+                static NEXT: std::sync::atomic::AtomicU64 = std::sync::atomic::AtomicU64::new(0);
+                let dir = format!("/verif/target/scratch/c13-{}", std::process::id());
+                let _ = std::fs::create_dir_all(&dir);
+                let f = format!("{}/g-{}.qgraph", dir, NEXT.fetch_add(1, std::sync::atomic::Ordering::Relaxed));
+                let path = std::path::Path::new(&f);
+                let r = quizx::json::write_graph(&g, path).and_then(|_| quizx::json::read_graph::<G>(path));
+                let _ = std::fs::remove_file(path);
+                r
+            } else {
+                decode_graph::<G>(&txt)
+            }
+        });
+        let h: G = match decoded {
             Err(p) => {
                 st.violation(Violation { sig: format!("decode|panic|{}", p.rsplit(" @ ").next().unwrap_or("")), detail: format!("{}\n{}", p, txt), witness: wit() });
                 return;
             }
             Ok(Err(e)) => {
-                st.violation(Violation { sig: format!("decode|error|scalar={}", scls(&case.scalar)), detail: format!("{}\n{}", e, txt), witness: wit() });
+                st.violation(Violation { sig: format!("decode|error|scalar={}{}", scls(&case.scalar), if via_file { "|write_graph+read_graph" } else { "" }), detail: format!("{}\n{}", e, txt), witness: wit() });
                 return;
             }
             Ok(Ok(h)) => h,
@@ -262,9 +278,16 @@ fn judge_serde(st: &mut Stats, case: &Case) {
     let g: quizx::hash_graph::Graph = case.build();
     let wit = || json!({"kind": "serde", "case": case.to_json()});
     let Ok(want) = canon(&g) else { return };
-    match guarded(|| serde_json::to_string(&g).map_err(|e| e.to_string()).and_then(|t| serde_json::from_str::<quizx::hash_graph::Graph>(&t).map_err(|e| e.to_string()))) {
-        Err(p) => st.violation(Violation { sig: "serde|panic".into(), detail: p, witness: wit() }),
-        Ok(Err(e)) => st.violation(Violation { sig: "serde|error".into(), detail: e, witness: wit() }),
+    // every serde_json entry point: from a string, from a reader over the same bytes, and through a Value
+    for route in ["from_str", "from_reader", "from_value"] {
+      let r = guarded(|| match route {
+        "from_str" => serde_json::to_string(&g).map_err(|e| e.to_string()).and_then(|t| serde_json::from_str::<quizx::hash_graph::Graph>(&t).map_err(|e| e.to_string())),
+        "from_reader" => serde_json::to_vec(&g).map_err(|e| e.to_string()).and_then(|t| serde_json::from_reader::<_, quizx::hash_graph::Graph>(std::io::Cursor::new(t)).map_err(|e| e.to_string())),
+        _ => serde_json::to_value(&g).map_err(|e| e.to_string()).and_then(|t| serde_json::from_value::<quizx::hash_graph::Graph>(t).map_err(|e| e.to_string())),
+      });
+      match r {
+        Err(p) => st.violation(Violation { sig: format!("serde|panic|{}", route), detail: p, witness: wit() }),
+        Ok(Err(e)) => st.violation(Violation { sig: format!("serde|error|{}", route), detail: e, witness: wit() }),
         Ok(Ok(h)) => {
             if canon(&h).ok().as_ref() != Some(&want) {
                 st.violation(Violation { sig: "serde|not-isomorphic".into(), detail: format!("{:?}", canon(&h)), witness: wit() });
@@ -274,6 +297,7 @@ fn judge_serde(st: &mut Stats, case: &Case) {
                 st.inc("nontrivial");
             }
         }
+      }
     }
 }
 
